@@ -10,6 +10,7 @@ import (
 	"bytes"
 	"io"
 
+	"github.com/syndtr/goleveldb/leveldb/cache"
 	"github.com/syndtr/goleveldb/leveldb/comparer"
 	"github.com/syndtr/goleveldb/leveldb/errors"
 	"github.com/syndtr/goleveldb/leveldb/filter"
@@ -324,3 +325,38 @@ func zzTableFilter(n int) {
 
 func ZZ_C16_find2() { zzTableFilter(2) }
 func ZZ_C16_find3() { zzTableFilter(3) }
+
+
+// ---- C20-get: a value returned by a table lookup is the caller's own copy ----
+// (documented on Reader.Find/Get and DB.Get). The table is read through a
+// shared block cache, with and without a buffer pool; the returned value is
+// overwritten with arbitrary bytes and the lookup repeated.
+func ZZ_C20_tableget() {
+	t := zzBuildTable(1+vpChoose(2), nil)
+	var bpool *util.BufferPool
+	if vpChoose(2) == 1 {
+		bpool = util.NewBufferPool(64)
+	}
+	var ns *cache.NamespaceGetter
+	if vpChoose(2) == 1 {
+		ns = &cache.NamespaceGetter{Cache: cache.NewCache(cache.NewLRU(1 << 20)), NS: 1}
+	}
+	r, err := NewReader(t.f, int64(len(t.f.data)), storage.FileDesc{Type: storage.TypeTable, Num: 1}, ns, bpool, t.o)
+	vpAssert(err == nil && r.err == nil, "newreader-ok")
+	i := vpChoose(len(t.K))
+	want := zzCopyB(t.V[i])
+	k := zzCopyB(t.K[i])
+	v1, e1 := r.Get(k, nil)
+	vpAssert(e1 == nil && len(v1) == len(want) && vpEqBytes(v1, want), "first-get")
+	vpAssert(vpEqBytes(k, t.K[i]), "get-arg-unmodified")
+	vpHavoc(v1)
+	vpHavoc(k)
+	v2, e2 := r.Get(t.K[i], nil)
+	vpAssert(e2 == nil && len(v2) == len(want) && vpEqBytes(v2, want), "returned-value-is-a-private-copy")
+	rk, rv, e3 := r.Find(t.K[i], false, nil)
+	vpAssert(e3 == nil, "find-ok")
+	vpHavoc(rk)
+	vpHavoc(rv)
+	rk2, rv2, e4 := r.Find(t.K[i], false, nil)
+	vpAssert(e4 == nil && len(rk2) == len(t.K[i]) && vpEqBytes(rk2, t.K[i]) && len(rv2) == len(want) && vpEqBytes(rv2, want), "find-results-are-private-copies")
+}
